@@ -1,19 +1,31 @@
-"""C20 - subspace and linear-algebra kernels: the unit conversions are mutually inverse as terms."""
+"""C20 - subspace and linear-algebra kernels: identities of scalar terms (E9) and of matrix terms (E10)."""
 from __future__ import annotations
 
+import ast
+
+from ..model import norm
+from .. import matterms as X
 from .. import terms as T
 from ..report import Ctx
 from ..selftest import Mutant
 
 CONV = 'pyphysim/util/conversion.py'
+PROJ = 'pyphysim/subspace/projections.py'
+METR = 'pyphysim/subspace/metrics.py'
+MISC = 'pyphysim/util/misc.py'
 
 EXPLANATION = (
-    'Decides ONE clause of C20: "dB/linear/dBm and Eb/N0 conversions are mutually inverse" - as an identity of '
-    'TERMS, for all arguments at once: the function bodies are extracted from the source, composed, and '
-    'normalised (polynomial normal form + pow/sqrt + the two cancellation rules log10(10**a)=a, 10**log10(a)=a); '
-    'the composition must normalise to the bare argument. An unknown operator is an ANALYSIS-ERROR, never a '
-    'violation. Every other clause of C20 (projections Hermitian/idempotent, chordal distances, GMD, whitening, '
-    'Sherman-Morrison, eigen selectors) is a floating-point identity of LAPACK results and is NOT decided.')
+    'Decides the ALGEBRAIC content of four clauses of C20 as identities of terms extracted from the source, for all '
+    'arguments at once; nothing is evaluated. C20.a: dB/linear/dBm and Eb/N0 conversions are mutually inverse (scalar '
+    'terms: polynomial normal form + pow/sqrt + log10(10**a)=a, 10**log10(a)=a). C20.b (matrix terms, E10): with P = '
+    'calcProjectionMatrix(A) as written in the source and A of full column rank: P^H = P, P P = P, P A = A, P + oP = I, '
+    'P oP = 0, project + oProject is the identity map, and reflect(reflect(M)) = M. C20.c: the two projector-based chordal '
+    'distance routines take the Frobenius norm of the SAME matrix (P(M) = Q Q^H under the QR contract) with the same '
+    '1/sqrt(2), are symmetric, vanish for equal arguments, and are invariant under M -> M B (B invertible) and '
+    'M -> U M (U unitary). C20.d: the whitening matrix W of a Hermitian positive definite C satisfies W^H C W = I (eigen '
+    'decomposition contract with orthonormal eigenvectors). An operator the normalisers do not know is an ANALYSIS-ERROR, never '
+    'a violation. Not decided: the principal-angle route (a theorem, not a rewriting), the GMD sweep, Sherman-Morrison and '
+    'the eigen/singular selectors as numbers, floating-point error and conditioning.')
 
 PAIRS = [('linear2dB', 'dB2Linear'), ('dB2Linear', 'linear2dB'), ('linear2dBm', 'dBm2Linear'),
          ('dBm2Linear', 'linear2dBm'), ('EbN0_dB_to_SNR_dB', 'SNR_dB_to_EbN0_dB'),
@@ -46,6 +58,160 @@ def check(ctx: Ctx) -> None:
             ctx.violation('C20.a', f, '%s(%s(x)) normalises to `%s`, not to x: the two conversions are not inverse of '
                           'each other (outer: %s ; inner: %s)' % (f, g, comp.pretty(), tf.pretty(), tg.pretty()),
                           CONV, M.func(CONV, f).lineno, operand='o:' + g)
+    check_projection(ctx)
+    check_chordal(ctx)
+    check_whitening(ctx)
+
+
+def _mat(ctx: Ctx, it: X.MatInterp, fn, args, what: str) -> X.Val:
+    try:
+        return it.call_function(fn, args, {})
+    except X.Unknown as e:
+        ctx.error('C20: cannot extract the matrix term of %s (%s): cannot tell' % (what, e))
+
+
+def _prove(ctx: Ctx, rule: str, construct: str, fn, lhs: X.MT, rhs: X.MT, cx: X.Ctx, why: str) -> None:
+    ctx.instance(rule, construct)
+    ok, l, r = X.proves(lhs, rhs, cx)
+    ctx.obligation(rule, construct, ok, {'lhs': l.pretty(), 'rhs': r.pretty(), 'contracts': sorted(set(cx.notes))})
+    if not ok:
+        ctx.violation(rule, fn.qualname, '%s: `%s` != `%s`' % (why, l.pretty(), r.pretty()), fn.path, fn.lineno,
+                      operand=construct.split(':', 1)[-1])
+
+
+def check_projection(ctx: Ctx) -> None:
+    M = ctx.model
+    ctx.rule('C20.b', 'projection identities proven from the formulas in the source (matrix terms)', floor=9)
+    ctx.assume('exact arithmetic; A has full column rank (A^H A invertible); B square invertible; U unitary')
+    cls = M.cls('Projection')
+    cx = X.Ctx()
+    it = X.MatInterp(M, cx, cls)
+    A, Mx = X.MT.sym('A'), X.MT.sym('M')
+    fp, fo = M.func(PROJ, 'Projection.calcProjectionMatrix'), M.func(PROJ, 'Projection.calcOrthogonalProjectionMatrix')
+    P = _mat(ctx, it, fp, [X.Val('mat', A)], 'calcProjectionMatrix')
+    oP = _mat(ctx, it, fo, [X.Val('mat', A)], 'calcOrthogonalProjectionMatrix')
+    if P.kind != 'mat' or oP.kind != 'mat':
+        ctx.error('C20.b: the projection matrices are not matrix expressions')
+    P, oP = P.v, oP.v
+    _prove(ctx, 'C20.b', 'calcProjectionMatrix:P^H = P', fp, X.adjoint(P, cx), P, cx, 'the projection matrix is not Hermitian')
+    _prove(ctx, 'C20.b', 'calcProjectionMatrix:P P = P', fp, X.mul(P, P, cx), P, cx, 'the projection matrix is not idempotent')
+    _prove(ctx, 'C20.b', 'calcProjectionMatrix:P A = A', fp, X.mul(P, A, cx), A, cx, 'projecting the matrix onto its own column space changes it')
+    _prove(ctx, 'C20.b', 'calcOrthogonalProjectionMatrix:P + oP = I', fo, X.add(P, oP), X.MT.identity(), cx, 'the two projections are not complementary')
+    _prove(ctx, 'C20.b', 'calcOrthogonalProjectionMatrix:P oP = 0', fo, X.mul(P, oP, cx), X.MT.zero(), cx, 'the two projections are not orthogonal to each other')
+    # the object: Q / oQ computed in the constructor, project / oProject / reflect
+    init = M.func(PROJ, 'Projection.__init__')
+    _mat(ctx, it, init, [X.Val('mat', A)], 'Projection.__init__')
+    meth = {n: M.func(PROJ, 'Projection.' + n) for n in ('project', 'oProject', 'reflect')}
+    pr = _mat(ctx, it, meth['project'], [X.Val('mat', Mx)], 'project')
+    op = _mat(ctx, it, meth['oProject'], [X.Val('mat', Mx)], 'oProject')
+    rf = _mat(ctx, it, meth['reflect'], [X.Val('mat', Mx)], 'reflect')
+    if not all(v.kind == 'mat' for v in (pr, op, rf)):
+        ctx.error('C20.b: project/oProject/reflect do not return matrix expressions')
+    rr = _mat(ctx, it, meth['reflect'], [X.Val('mat', rf.v)], 'reflect o reflect')
+    _prove(ctx, 'C20.b', 'Projection.project:= P M', meth['project'], pr.v, X.mul(P, Mx, cx), cx, 'project(M) is not P M for the projection of the constructor argument')
+    _prove(ctx, 'C20.b', 'Projection.oProject:project + oProject = identity', meth['oProject'], X.add(pr.v, op.v), Mx, cx,
+           'project(M) + oProject(M) is not M')
+    _prove(ctx, 'C20.b', 'Projection.reflect:reflect twice = identity', meth['reflect'], rr.v, Mx, cx, 'reflecting twice is not the identity')
+    _prove(ctx, 'C20.b', 'Projection.reflect:fixes the complement', meth['reflect'], X.mul(oP, rf.v, cx), X.mul(oP, Mx, cx), cx,
+           'the reflection changes the component orthogonal to the subspace')
+
+
+def _norm_parts(ctx: Ctx, v: X.Val, cx: X.Ctx, what: str):
+    """(coefficient, matrix) if v is  coefficient * ||matrix||_F."""
+    if v.kind != 'scal':
+        ctx.error('C20.c: %s does not return a scalar expression' % what)
+    s = v.v.single()
+    if s is None:
+        if not v.v.terms:
+            return T.Term.const(0), X.MT.zero()
+        ctx.error('C20.c: %s is not a multiple of one Frobenius norm: %s' % (what, v.v.pretty()))
+    mono, c = s
+    norms = [(a, e) for a, e in mono if a[0] == 'sym' and a[1] in cx.norm_args]
+    if len(norms) != 1 or norms[0][1] != 1:
+        ctx.error('C20.c: %s is not a multiple of one Frobenius norm: %s' % (what, v.v.pretty()))
+    rest = T.Term({tuple(x for x in mono if x[0] != norms[0][0]): c})
+    return rest, cx.norm_args[norms[0][0][1]]
+
+
+def check_chordal(ctx: Ctx) -> None:
+    M = ctx.model
+    ctx.rule('C20.c', 'projector-based chordal distances: same matrix under the QR contract, same normaliser, symmetric, zero on equal '
+                      'arguments, invariant under change of basis and unitary rotation', floor=6)
+    f1, f2 = M.func(METR, 'calc_chordal_distance'), M.func(METR, 'calc_chordal_distance_2')
+    cx = X.Ctx()
+    it = X.MatInterp(M, cx, None)
+    M1, M2 = X.MT.sym('M1'), X.MT.sym('M2')
+    cx.invertible |= {'B1', 'B2'}
+    cx.ortho_cols.add('Urot')
+    cx.ortho_rows.add('Urot')
+    half = T.t_pow(T.Term.const(2), T.Term.const(T.Fraction(-1, 2)))
+
+    def dist(fn, a, b, what):
+        return _norm_parts(ctx, _mat(ctx, it, fn, [X.Val('mat', a), X.Val('mat', b)], what), cx, what)
+    c1, X1 = dist(f1, M1, M2, 'calc_chordal_distance')
+    c2, X2 = dist(f2, M1, M2, 'calc_chordal_distance_2')
+    for fn, c, name in ((f1, c1, 'calc_chordal_distance'), (f2, c2, 'calc_chordal_distance_2')):
+        construct = '%s:normaliser' % name
+        ctx.instance('C20.c', construct)
+        ok = c == half
+        ctx.obligation('C20.c', construct, ok, {'coefficient': c.pretty(), 'expected': half.pretty()})
+        if not ok:
+            ctx.violation('C20.c', fn.qualname, 'the norm of the projector difference is scaled by `%s`, not by 1/sqrt(2)' % c.pretty(),
+                          fn.path, fn.lineno, operand='normaliser')
+    # agreement: the same matrix (up to sign) once the QR contract is applied
+    ok, l, r = X.proves(X1, X2, cx)
+    if not ok:
+        ok, l, r = X.proves(X1, X.neg(X2), cx)
+    ctx.instance('C20.c', 'calc_chordal_distance/calc_chordal_distance_2:agree')
+    ctx.obligation('C20.c', 'calc_chordal_distance/calc_chordal_distance_2:agree', ok, {'first': l.pretty(), 'second': r.pretty(),
+                                                                                       'contracts': sorted(set(cx.notes))})
+    if not ok:
+        ctx.violation('C20.c', f2.qualname, 'the two routines take the norm of different matrices: `%s` vs `%s`' % (l.pretty(), r.pretty()),
+                      f2.path, f2.lineno, operand='agree')
+    # the routine that is written with explicit projectors (no factorisation of its arguments) carries the invariances
+    explicit = [(fn, n) for fn, n in ((f1, 'calc_chordal_distance'), (f2, 'calc_chordal_distance_2'))
+                if not any(isinstance(c, ast.Call) and norm(c.func).endswith('qr') for c in ast.walk(fn.node))]
+    if not explicit:
+        ctx.error('C20.c: neither chordal-distance routine is written with explicit projectors (cannot tell)')
+    for fn, name in [(f1, 'calc_chordal_distance'), (f2, 'calc_chordal_distance_2')]:
+        # symmetry and zero on equal arguments hold for both spellings
+        cs, Xs = dist(fn, M2, M1, name + ' (swapped)')
+        c0, X0 = dist(fn, M1, M1, name + ' (equal arguments)')
+        ca, Xa = dist(fn, M1, M2, name)
+        construct = '%s:symmetric' % name
+        ctx.instance('C20.c', construct)
+        ok = X.proves(Xs, Xa, cx)[0] or X.proves(Xs, X.neg(Xa), cx)[0]
+        ctx.obligation('C20.c', construct, ok, {'d(a,b)': Xa.pretty(), 'd(b,a)': Xs.pretty()})
+        if not ok:
+            ctx.violation('C20.c', fn.qualname, 'not symmetric in its arguments', fn.path, fn.lineno, operand='symmetric')
+        construct = '%s:zero on equal arguments' % name
+        ctx.instance('C20.c', construct)
+        ok = not X0.terms
+        ctx.obligation('C20.c', construct, ok, {'matrix': X0.pretty()})
+        if not ok:
+            ctx.violation('C20.c', fn.qualname, 'does not vanish for equal arguments: ||%s||' % X0.pretty(), fn.path, fn.lineno, operand='zero')
+    for fn, name in explicit:
+        ca, Xa = dist(fn, M1, M2, name)
+        cb, Xb = dist(fn, X.mul(M1, X.MT.sym('B1'), cx), X.mul(M2, X.MT.sym('B2'), cx), name + ' (change of basis)')
+        _prove(ctx, 'C20.c', '%s:invariant under change of basis' % name, fn, Xb, Xa, cx, 'the distance depends on the basis chosen for the subspaces')
+        U = X.MT.sym('Urot')
+        cu, Xu = dist(fn, X.mul(U, M1, cx), X.mul(U, M2, cx), name + ' (unitary rotation)')
+        _prove(ctx, 'C20.c', '%s:invariant under a common unitary rotation' % name, fn, Xu, Xa, cx,
+               'the distance changes under a common unitary rotation')
+
+
+def check_whitening(ctx: Ctx) -> None:
+    M = ctx.model
+    ctx.rule('C20.d', 'the whitening matrix turns the covariance into the identity (matrix terms, eigen-decomposition contract)', floor=1)
+    fn = M.func(MISC, 'calc_whitening_matrix')
+    cx = X.Ctx()
+    it = X.MatInterp(M, cx, None)
+    C = X.MT.sym('C')
+    W = _mat(ctx, it, fn, [X.Val('mat', C)], 'calc_whitening_matrix')
+    if W.kind != 'mat':
+        ctx.error('C20.d: calc_whitening_matrix does not return a matrix expression')
+    _prove(ctx, 'C20.d', 'calc_whitening_matrix:W^H C W = I', fn, X.mul(X.mul(X.adjoint(W.v, cx), C, cx), W.v, cx), X.MT.identity(), cx,
+           'the whitened covariance is not the identity')
 
 
 def synthetic():
@@ -59,11 +225,40 @@ MUTANTS = [
            r'C20\.a:(linear2dB|dB2Linear|linear2dBm|dBm2Linear)'),
     Mutant('linear2dBm-times-100', CONV, 'linear2dBm', [('replace', '1000.0', '100.0')], r'C20\.a:(linear2dBm|dBm2Linear)'),
     Mutant('ebn0-sign', CONV, 'EbN0_dB_to_SNR_dB', [('replace', 'EbN0 + 10', 'EbN0 - 10')], r'C20\.a:(EbN0|SNR)'),
+    Mutant('projection-drops-inverse', PROJ, 'Projection.calcProjectionMatrix',
+           [('replace', 'A.dot(np.linalg.inv(A_H.dot(A))).dot(A_H)', 'A.dot(A_H)')], r'C20\.b:Projection\.calcProjectionMatrix:P P = P'),
+    Mutant('projection-transpose-without-conj', PROJ, 'Projection.calcProjectionMatrix',
+           [('replace', 'A_H = A.conjugate().transpose()', 'A_H = A.transpose()')], r'C20\.b:Projection\.calcProjectionMatrix:P\^H = P'),
+    Mutant('projection-gram-swapped', PROJ, 'Projection.calcProjectionMatrix',
+           [('replace', 'np.linalg.inv(A_H.dot(A))', 'np.linalg.inv(A.dot(A_H))')], r'C20\.b:Projection\.calcProjectionMatrix'),
+    Mutant('orthogonal-projection-plus', PROJ, 'Projection.calcOrthogonalProjectionMatrix',
+           [('replace', 'np.eye(Q.shape[0]) - Q', 'np.eye(Q.shape[0]) + Q')], r'C20\.b:Projection\.calcOrthogonalProjectionMatrix'),
+    Mutant('reflect-without-factor-two', PROJ, 'Projection.reflect', [('replace', '2 * self.Q', 'self.Q')],
+           r'C20\.b:Projection\.reflect:reflect twice'),
+    Mutant('reflect-about-the-complement-sign', PROJ, 'Projection.reflect', [('replace', 'np.eye(self.Q.shape[0]) - 2 * self.Q', '2 * self.Q - np.eye(self.Q.shape[0])')],
+           r'C20\.b:Projection\.reflect:fixes the complement'),
+    Mutant('chordal-normaliser-two', METR, 'calc_chordal_distance', [('replace', '/ math.sqrt(2.0)', '/ 2.0')], r'C20\.c:calc_chordal_distance:normaliser'),
+    Mutant('chordal-second-basis-from-first-matrix', METR, 'calc_chordal_distance', [('replace', 'Q2 = np.linalg.qr(matrix2)[0]', 'Q2 = np.linalg.qr(matrix1)[0]')],
+           r'C20\.c:calc_chordal_distance'),
+    Mutant('chordal-2-sum-of-projectors', METR, 'calc_chordal_distance_2',
+           [('replace', 'calcProjectionMatrix(matrix1) - calcProjectionMatrix(matrix2)', 'calcProjectionMatrix(matrix1) + calcProjectionMatrix(matrix2)')],
+           r'C20\.c:calc_chordal_distance_2'),
+    Mutant('chordal-q-without-conj', METR, 'calc_chordal_distance', [('replace', 'Q1.dot(Q1.conjugate().transpose())', 'Q1.dot(Q1.transpose())')],
+           r'C20\.c:calc_chordal_distance'),
+    Mutant('whitening-without-square-root', MISC, 'calc_whitening_matrix', [('replace', '1.0 / L ** 0.5', '1.0 / L')], r'C20\.d:calc_whitening_matrix'),
+    Mutant('benign-projection-matmul-operators', PROJ, 'Projection.calcProjectionMatrix',
+           [('replace', 'A.dot(np.linalg.inv(A_H.dot(A))).dot(A_H)', 'A @ np.linalg.inv(A_H @ A) @ A_H')], None, benign=True),
+    Mutant('benign-orthogonal-projection-recomputed', PROJ, 'Projection.calcOrthogonalProjectionMatrix',
+           [('replace', 'np.eye(Q.shape[0]) - Q', '-Q + np.eye(A.shape[0])')], None, benign=True),
+    Mutant('benign-whitening-negative-power', MISC, 'calc_whitening_matrix', [('replace', 'np.diag(1.0 / L ** 0.5)', 'np.diag(L ** (-0.5))')], None, benign=True),
+    Mutant('benign-chordal-2-swapped-difference', METR, 'calc_chordal_distance_2',
+           [('replace', 'calcProjectionMatrix(matrix1) - calcProjectionMatrix(matrix2)', 'calcProjectionMatrix(matrix2) - calcProjectionMatrix(matrix1)')],
+           None, benign=True),
     Mutant('benign-pow-operator', CONV, 'dB2Linear', [('replace', 'pow(10, valueIndB / 10.0)', '10 ** (valueIndB / 10)')],
            None, benign=True),
     Mutant('benign-math-log10', CONV, 'linear2dB', [('replace', 'np.log10', 'math.log10')], None, benign=True),
     Mutant('benign-temp', CONV, 'linear2dB', [('regex', r'return (.*)', r'y = \1\n    return y')], None, benign=True),
 ]
 
-ENGINES = ['model', 'terms']
-TECHNIQUE = 'static analysis: term normal forms of function compositions (symbolic rewriting, no evaluation)'
+ENGINES = ['model', 'terms', 'matterms']
+TECHNIQUE = 'static analysis: scalar and matrix term normal forms of extracted formulas (commutative / non-commutative rewriting under stated contracts, no evaluation)'
